@@ -111,8 +111,10 @@ Proof.
           + cbn. split; [lia|]. split; [reflexivity|lia].
         - intros f0 E _. cbn. exact Hic. }
       destruct (failed c) eqn:Hf.
-      * split; [|intros p b []]. cbn [cn ms r_ms r_cn]. fold c. apply G. congruence.
-      * destruct (mf_msg_limit (maxMsg cf) (0 + f_len f)) eqn:L1.
+      * split; [|intros p b []]. cbn [cn ms r_ms r_cn]. fold c. split; [exact Hzc|]. split; [congruence|].
+        intros f0 E _. exact Hic.
+      * cbv iota. cbn [mtotal m_mtotal m_fdata m_mdata m_mbin].
+        destruct (mf_msg_limit (maxMsg cf) (0 + f_len f)) eqn:L1.
         { pose proof (Hfail code_message_too_big) as F. pose proof (no_msg_fail cf c code_message_too_big) as NM.
           destruct (fail_connection cf c code_message_too_big) as [c1 e]. cbn [fst snd] in *.
           split; [|exact NM]. cbn [cn ms r_ms r_cn]. apply G. congruence. }
@@ -149,6 +151,7 @@ Lemma on_frame_begin_cur (s : rstate) f :
   cur D (fst (on_frame_begin D cd cf s f)) = cur D s /\ mptr D (fst (on_frame_begin D cd cf s f)) = mptr D s.
 Proof.
   unfold on_frame_begin. destruct (fb_is_ctl _); [split; reflexivity|].
+  destruct (failed (cn D s)); [split; reflexivity|].
   destruct (on_message_frame_begin D cf _ _ _) as [[cx mx] ex]. split; reflexivity.
 Qed.
 
@@ -253,13 +256,14 @@ Lemma on_frame_end_MI (s : rstate) f : pd_is_ctl (f_op f) = false -> cur D s = S
   let '(s3, e3, _) := on_frame_end D cd cf s f in Inv16 s3 /\ bounded e3.
 Proof.
   intros Hc Hcur [Hz [Hin Hi]] Ha. unfold on_frame_end. change (fe_is_ctl (f_op f)) with (pd_is_ctl (f_op f)). rewrite Hc.
-  set (m1 := m_fdata D (if failed (cn D s) then ms D s else m_mdata D (ms D s) (mdata D (ms D s) ++ fdata D (ms D s))) []).
+  set (m1 := if failed (cn D s) then ms D s else m_fdata D (m_mdata D (ms D s) (mdata D (ms D s) ++ fdata D (ms D s))) []).
   assert (Zm1 : zon D m1 = false) by (unfold m1; destruct (failed (cn D s)); exact Hz).
   assert (Im1 : inside D m1 = true) by (unfold m1; destruct (failed (cn D s)); exact Hin).
   assert (Lm1 : failed (cn D s) = false -> lenN (mdata D m1) = mtotal D m1 /\ fdata D m1 = [] /\
                 (0 < maxMsg cf -> lenN (mdata D m1) <= maxMsg cf) /\ (0 < maxMsg cf -> mtotal D m1 <= maxMsg cf)).
   { intros Hf. destruct (Hi Hf) as [A [B [C E]]]. unfold m1. rewrite Hf. cbn. rewrite lenN_app.
     split; [lia|]. split; [reflexivity|]. split; intros Hm; specialize (A Hm); lia. }
+  clearbody m1.
   destruct (f_fin f).
   - rewrite Zm1.
     match goal with |- context [if ?b then invalid_payload cf ?c0 else _] => destruct b end.
@@ -269,10 +273,12 @@ Proof.
         split; [exact Zm1|]. split; [congruence|]. intros f0 _ _. exact Im1.
       * rewrite F, app_nil_r. split; [|now apply bounded_no_msg]. unfold Inv16. cbn.
         split; [exact Zm1|]. split; [congruence|]. intros f0 E; discriminate.
-    + rewrite app_nil_l. split.
-      * unfold Inv16. cbn. split; [exact Zm1|]. split; [intros _ E; discriminate|]. intros f0 E; discriminate.
-      * destruct (failed (cn D s)) eqn:Hf; [apply bounded_nil|].
-        intros p b [E|[]] Hm. inversion E; subst. destruct (Lm1 eq_refl) as [_ [_ [L _]]]. auto.
+    + rewrite app_nil_l. destruct (failed (cn D s)) eqn:Hf.
+      * split; [|apply bounded_nil].
+        unfold Inv16. cbn. split; [exact Zm1|]. split; [intros _ E; discriminate|]. intros f0 E; discriminate.
+      * split.
+        -- unfold Inv16. cbn. split; [exact Zm1|]. split; [intros _ E; discriminate|]. intros f0 E; discriminate.
+        -- intros p b [E|[]] Hm. inversion E; subst. destruct (Lm1 eq_refl) as [_ [_ [L _]]]. auto.
   - split; [|apply bounded_nil]. unfold Inv16. cbn [cn ms cur mptr r_ms r_cur].
     split; [exact Zm1|]. split; [|intros f0 E; discriminate]. intros Hf _. destruct (Lm1 Hf) as [L1 [L2 [_ L4]]]. auto.
 Qed.
